@@ -41,6 +41,10 @@ var metaExtraProgs = []struct {
 		[]string{`"proxy.x" true true`}, ""},
 	{"xpcall-callable-first-argument", `local c = setmetatable({}, {__call = function(self, ...) emit("called", type(self), select("#", ...)) return "r1", "r2" end}); emit(xpcall(c, function(e) return "h" end)); emit(xpcall(42, function(e) emit("handler", type(e)) return "h" end)); emit(pcall(xpcall, nil, function(e) return "h2" end))`,
 		[]string{`"called" "table" 0`, `true "r1" "r2"`, `"handler" "string"`, `false "h"`, `true false "h2"`}, ""},
+	{"debug-setmetatable-returns-true", `local mt = {}; emit(debug.setmetatable(nil, mt), debug.getmetatable(nil) == mt); emit(debug.setmetatable(nil, nil), debug.getmetatable(nil)); local t = {}; emit(debug.setmetatable(t, mt), getmetatable(t) == mt)`,
+		[]string{"true true", "true nil", "true true"}, ""},
+	{"string-metatable-is-separate", `string.__unm = function() return "hijacked" end; emit(pcall(function() return -"abc" end)); emit(getmetatable("") == string); local n = 0; for k, v in pairs(string) do if type(v) ~= "function" then n = n + 1 end end; emit(n)`,
+		[]string{"false", "false", "0"}, ""},
 	// OPEN finding C04-1: `#` on a table consults __len (Lua 5.2 rule; the project's own suite pins it)
 	{"len-of-table-ignores-handler", `local calls = 0; local t = setmetatable({10, 20, 30}, {__len = function() calls = calls + 1 return 42 end}); emit(#t, calls); t[#t + 1] = 40; emit(t[4], rawget(t, 43))`,
 		[]string{"3 0", "40 nil"}, "C04-1"},
